@@ -68,6 +68,11 @@ PROJECTS = {
     "html": {
         "p.html": "<div>a</div><div>b</div>\n<script>foo(1); bar(foo(2))</script>\n<div><span>é</span></div>\n",
     },
+    # (6) suppression comments: a suppressed match is neither announced nor written (next-line,
+    #     same-line, by id, by another rule's id = not suppressed, file-level is not used here)
+    "suppressed": {
+        "s.js": "// ast-grep-ignore\nfoo(1);\nfoo(2); // ast-grep-ignore: a-foo\nbar(3); // ast-grep-ignore: a-foo\n// ast-grep-ignore: b-bar, c-qux\nfoo(bar(4)); qux(5)\nfoo(6)\n",
+    },
     # (5) nothing matches; neighbours of other languages that contain the text of a match
     "no-match": {
         "n.js": "let y = 1;\n",
@@ -422,7 +427,7 @@ def main(argv):
         return replay(args, binary)
     rep = vlib.Reporter(PROP, args)
     thorough = args["tier"] == "thorough"
-    depth = 4 if thorough else 3
+    depth = 4  # both tiers; thorough has more commands and projects (depth 5 exceeds the state cap)
     commands = COMMANDS_THOROUGH if thorough else COMMANDS_QUICK
     projects = dict(PROJECTS)
     if thorough:
